@@ -23,7 +23,7 @@ from . import c06_lib as L
 from .common import plist, frac, VERIF, LEAN
 
 THEOREMS = [
-    'Pyiga.Props.C06.at_sound', 'Pyiga.Props.C06.literal_sound', 'Pyiga.Props.C06.transpose_sound',
+    'Pyiga.Props.C06.at_sound', 'Pyiga.Props.C06.literal_sound', 'Pyiga.Props.C06.literal_tree_sound', 'Pyiga.Props.C06.transpose_sound',
     'Pyiga.Props.C06.fold_constants_sound', 'Pyiga.Props.C06.dx_sound',
     'Pyiga.Props.C06.key_sound', 'Pyiga.Props.C06.cse_sound', 'Pyiga.Props.C06.inline_sound',
     'Pyiga.Props.C06.vec_subst_sound',
